@@ -7,6 +7,7 @@ DRIVER = 'harness/barrier_drv.cpp'
 EXTRACT = 'Extract/BarrierExtract.v'
 ML = 'barrier_model'
 SANITIZE = False
+ENUM = True
 
 WAIT, DROP = 0, 1
 
